@@ -30,7 +30,7 @@ def write(prop, tier, seed, coverage, wall_s, violations, assumptions):
     os.makedirs(d, exist_ok=True)
     path = os.path.join(d, prop + ".json")
     tmp = path + ".tmp"
-    with open(tmp, "w") as fp:
+    with open(tmp, "w", encoding="utf-8", errors="backslashreplace") as fp:
         json.dump(ev, fp, indent=1, ensure_ascii=False, default=str)
         fp.write("\n")
     os.replace(tmp, path)
